@@ -5,6 +5,7 @@ import (
 	"encoding/json"
 	"errors"
 	"fmt"
+	"reflect"
 	"regexp"
 	"strings"
 	"sync"
@@ -112,7 +113,17 @@ func c08Service(r *c08Rec) (*core.Service, map[string]string) {
 		return b, s2 + s1
 	}, "shared")
 	pub(func(a int, rest ...interface{}) int {
-		args := append([]interface{}{a}, rest...)
+		args := []interface{}{a}
+		for _, e := range rest {
+			// an untyped nil must arrive as an untyped nil (a typed nil slice or pointer in its place would be
+			// equal to it for the judge, which takes nil and empty containers for the same)
+			if e != nil {
+				if v := reflect.ValueOf(e); (v.Kind() == reflect.Slice || v.Kind() == reflect.Ptr || v.Kind() == reflect.Map) && v.IsNil() {
+					e = "TYPED-NIL:" + v.Type().String()
+				}
+			}
+			args = append(args, e)
+		}
 		r.invoked("vany", args...)
 		r.values("vany", len(rest))
 		return len(rest)
@@ -287,6 +298,15 @@ func c08Run(t *tr.Writer, id int, c c08Case) {
 	raw("vany", 2, "x", nil, nil)
 	raw("vany", 3)
 	raw("vany", 4, nil)
+	// nil in a typed tail is the element type's zero value: the function must see "a", "", "c"
+	rawAs := func(name string, sent []interface{}, seen []interface{}) {
+		isRaw = true
+		defer func() { isRaw = false }()
+		call(name, seen, func() ([]interface{}, error) { return client.Invoke(name, sent) })
+	}
+	rawAs("concat", []interface{}{"a", nil, "c"}, []interface{}{"a", "", "c"})
+	rawAs("concat", []interface{}{"a", nil}, []interface{}{"a", ""})
+	rawAs("add", []interface{}{nil, 5}, []interface{}{0, 5})
 	// results larger than a segment / a socket buffer
 	if c.Kind != "udp" {
 		raw("bigstr", 300000, 1)
